@@ -312,7 +312,8 @@ func runC01(rc *core.RunCtx) {
 // produced must have its entry in the errors of some payload.
 func runC01Deferred(rc *core.RunCtx, v *uni.Variant) {
 	t := rc.Tape
-	op := pickOp(rc, v, opSource{Corpus: ops.DeferCorpus, Gen: true, Defer: true})
+	// (one generated operation in five is a mutation: @defer below a mutation's root fields)
+	op := pickOp(rc, v, opSource{Corpus: ops.DeferCorpus, Gen: true, Defer: true, Mutation: true})
 	plan := pickPlan(rc, false)
 	cfg := Cfg{Variant: v, Op: op, Plan: plan, Sched: Sched(t.Choose(int(NumScheds), "sched")), CancelAt: -1, ParkDir: t.Bool(1, 2, "parkdir")}
 	out := Execute(rc, cfg)
